@@ -97,7 +97,9 @@ func scriptKind(attrs []nethtml.Attribute) string {
 		return "js"
 	case t == "module":
 		return "module"
-	case t == "application/ld+json":
+	case t == "application/ld+json", t == "importmap", t == "speculationrules":
+		// JSON-LD is the JSON data block scriggo knows; import maps and speculation
+		// rules are parsed as JSON by the browser itself
 		return "json"
 	}
 	return "data"
